@@ -99,11 +99,17 @@ def _cleanup_now():
 
 
 class FCap:
-    """In-memory tty-like stdout whose write()/flush() are fault points."""
+    """In-memory tty-like stdout whose write()/flush() are fault points.
 
-    def __init__(self, tty=True):
+    unbuffered: write() delivers at once; an interrupted write delivers a prefix of its data.
+    buffered:   write() only buffers; flush() delivers, and an interrupted flush delivers a prefix of the
+                buffered data and loses the rest (a stream that fails in mid-flush)."""
+
+    def __init__(self, tty=True, buffered=False):
         self._tty = tty
+        self.buffered = buffered
         self.chunks = []
+        self.buf = ""
         self.encoding = "utf-8"
 
     def isatty(self):
@@ -114,13 +120,17 @@ class FCap:
             raise io.UnsupportedOperation("fileno")
         return PTY_SLAVE
 
+    @staticmethod
+    def _letters(data):
+        return any("A" <= ch <= "Z" for ch in _CSI.sub("", data))
+
     def write(self, data):
         f = F
         if not f.enabled:
             self.chunks.append(data)
             return len(data)
         i = len(f.events)
-        f.events.append(("write", (len(data), _cleanup_now())))
+        f.events.append(("write", (len(data), _cleanup_now(), self._letters(data))))
         plan = f.plan
         if plan and plan[0] == i:
             if plan[3] is not None and not plan[3](f.events[-1], f.events):
@@ -128,28 +138,44 @@ class FCap:
             else:
                 f.fired = True
                 n = max(0, min(len(data), plan[4]))
-                self.chunks.append(data[:n])
-                f.cut = (data, n)
+                if self.buffered:
+                    if n == len(data):
+                        self.buf += data
+                    f.cut = None
+                else:
+                    self.chunks.append(data[:n])
+                    f.cut = (data, n)
                 raise plan[2]()
-        self.chunks.append(data)
+        if self.buffered:
+            self.buf += data
+        else:
+            self.chunks.append(data)
         return len(data)
 
     def flush(self):
         f = F
         if not f.enabled:
+            self.chunks.append(self.buf)
+            self.buf = ""
             return
         i = len(f.events)
-        f.events.append(("flush", (0, _cleanup_now())))
+        f.events.append(("flush", (len(self.buf), _cleanup_now(), self._letters(self.buf))))
         plan = f.plan
         if plan and plan[0] == i:
             if plan[3] is not None and not plan[3](f.events[-1], f.events):
                 f.skipped = True
             else:
                 f.fired = True
+                n = max(0, min(len(self.buf), plan[4] if len(plan) > 4 and plan[4] is not None else 0))
+                self.chunks.append(self.buf[:n])
+                f.cut = (self.buf, n) if self.buffered else None
+                self.buf = ""
                 raise plan[2]()
+        self.chunks.append(self.buf)
+        self.buf = ""
 
     def text(self):
-        return "".join(self.chunks)
+        return "".join(self.chunks) + self.buf
 
 
 # ---------------------------------------------------------------------------------------- generation
@@ -167,6 +193,7 @@ def cases(draw):
             "pad": draw(iterlab.pad_spec()), "fill": draw(st.sampled_from([" ", ""])),
             "hide_cursor": draw(st.booleans()), "echo_input": draw(st.booleans()),
             "animate": draw(st.integers(0, 4)) != 0, "tty": draw(st.integers(0, 4)) != 0,
+            "buffered": draw(st.booleans()),
         }
     animated = draw(st.booleans())
     style = draw(st.sampled_from(["block", "kitty", "iterm2"]))
@@ -187,6 +214,7 @@ def cases(draw):
         "animate": draw(st.integers(0, 4)) != 0, "repeat": draw(st.sampled_from([1, 2])),
         "cached": draw(st.sampled_from([False, True])), "tty": draw(st.integers(0, 4)) != 0,
         "dynamic": draw(st.booleans()), "seek": draw(st.integers(0, 1)),
+        "buffered": draw(st.booleans()),
     }
     if style == "kitty":
         c["style_args"] = {"method": draw(st.sampled_from(["lines", "whole"])), "compress": draw(st.sampled_from([0, 4]))}
@@ -206,7 +234,7 @@ class Run:
         self.c = c
         env.reset()
         env.apply(cols=30, rows=12)
-        self.cap = FCap(c["tty"])
+        self.cap = FCap(c["tty"], c.get("buffered", False))
         self.pil = None
         if c["api"] == "new":
             H["forget"]()
@@ -359,9 +387,9 @@ def check_config(c, rec):
 
 def describe(c):
     if c["api"] == "new":
-        return (f"new-API draw {c['kind']} n={c['n']} {c['w']}x{c['h']} pad={c['pad']} loops={c['loops']} cache={c['cache']} "
+        return (("[buffered stdout] " if c.get("buffered") else "") + f"new-API draw {c['kind']} n={c['n']} {c['w']}x{c['h']} pad={c['pad']} loops={c['loops']} cache={c['cache']} "
                 f"animate={c['animate']} hide_cursor={c['hide_cursor']} echo_input={c['echo_input']} tty={c['tty']}")
-    return (f"old-API draw {c['style']} {c['source']['kind']} size={'FIT' if c['dynamic'] else c['size']} pad=({c['pad_width']},{c['pad_height']}) "
+    return (("[buffered stdout] " if c.get("buffered") else "") + f"old-API draw {c['style']} {c['source']['kind']} size={'FIT' if c['dynamic'] else c['size']} pad=({c['pad_width']},{c['pad_height']}) "
             f"alpha={c['alpha']!r} animate={c['animate']} repeat={c['repeat']} cached={c['cached']} style={c['style_args']} "
             f"ident={c['ident']} tty={c['tty']} seek={c['seek']}")
 
@@ -399,22 +427,30 @@ def _check(c, rec, attrs0):
             continue
         if kind == "write":
             n = detail[0]
-            variants = sorted({0, 1, n // 2, max(0, n - 1), n} & set(range(0, n + 1)))
+            if c.get("buffered"):
+                variants = [0, n]  # nothing is delivered by a buffered write: interrupted before / after buffering
+            else:
+                variants = sorted({0, 1, n // 2, max(0, n - 1), n} & set(range(0, n + 1)))
             plans = [("write", p) for p in variants]
+        elif kind == "flush" and c.get("buffered"):
+            n = detail[0]
+            plans = [("flushcut", p) for p in sorted({0, 1, n // 2, max(0, n - 1), n} & set(range(0, n + 1)))]
         else:
             plans = [("before", None), ("after", None)]
         for when, prefix in plans:
             for ename, efac in EXCS.items():
                 def guard(ev, evs, _kind=kind, _detail=detail):
                     return ev[0] == _kind and (ev[1][1] if _kind in ("write", "flush") else bool(ev[1])) is False and \
-                        (_kind != "write" or ev[1][0] == _detail[0])
+                        (_kind not in ("write", "flush") or ev[1][0] == _detail[0])
 
                 if kind == "write":
+                    plan = (i, "before", efac, guard, prefix)
+                elif kind == "flush" and when == "flushcut":
                     plan = (i, "before", efac, guard, prefix)
                 elif kind == "flush":
                     plan = (i, when, efac, guard, 0)
                     if when == "after":
-                        continue  # FCap.flush has no effect to be 'after' of
+                        continue  # an unbuffered flush has no effect to be 'after' of
                 else:
                     plan = (i, when, efac, guard)
                 F.reset(plan)
@@ -434,9 +470,10 @@ def _check(c, rec, attrs0):
                     if not fired:
                         continue
                     injected += 1
-                    where = f"{ename} at call #{i} ({kind}" + (f", {prefix}/{detail[0]} chars delivered" if kind == "write" else f", {when}") + ")"
+                    where = f"{ename} at call #{i} ({kind}" + (f", {prefix}/{detail[0]} chars delivered" if prefix is not None else f", {when}") + (", buffered stream" if c.get("buffered") else "") + ")"
                     judge(run, c, f"{base}: {where}", outcome, ename, attrs0, kind, started=nframe >= 1 and not (kind == "render" and nframe == 1 and when == "before"),
-                          frame_write=bool(cut and any("A" <= ch <= "Z" for ch in _CSI.sub("", cut[0]))))
+                          frame_write=bool(cut and any("A" <= ch <= "Z" for ch in _CSI.sub("", cut[0])))
+                          or bool(kind == "flush" and not c.get("buffered") and i > 0 and events[i - 1][0] == "write" and events[i - 1][1][2]))
                     cut_inside = bool(cut and 0 < cut[1] < len(cut[0]) and ("\x1b" in cut[0]))
                     if cut_inside or nframe >= 2:
                         rec.nontriv([c["api"], c.get("style", c.get("kind")), run.animation, kind, min(nframe, 3),
